@@ -247,6 +247,8 @@ func crashMsg(mid string, size int, from string) *fbb.Message {
 var fixedDate = crashDate()
 
 // childOp runs one mutating operation on an existing mailbox (in the strace'd child).
+var longMID = strings.Repeat("L", 249)
+
 func childOp(op, mbox string, size int) int {
 	h := mailbox.NewDirHandler(mbox, false)
 	h.Prepare()
@@ -274,6 +276,14 @@ func childOp(op, mbox string, size int) int {
 					return 3
 				}
 			}
+		}
+	case "ProcessInboundLong": // an identifier so long that ".<MID>.b2f.tmp" exceeds the file name limit while "<MID>.b2f" fits
+		if err := h.ProcessInbound(crashMsg(longMID, size, "LA2BBB")); err != nil {
+			return 3
+		}
+	case "ReAddSent": // a message that is already in the sent folder is queued again
+		if err := h.AddOut(crashMsg("OLDOUT000002", 30, "LA1AAA")); err != nil {
+			return 3
 		}
 	case "ReceiveAgain": // the inbound message is already there (e.g. read flag cleared) and is stored again
 		if err := h.ProcessInbound(crashMsg("OLDIN0000001", size, "LA2BBB")); err != nil {
@@ -389,7 +399,8 @@ func recoverCheck(dir string, op string, size int, old map[string][]byte) (ev re
 			}
 		}
 		o, s := find(out, mid) != nil, find(sent, mid) != nil
-		if e2 == nil && e3 == nil && o == s {
+		// "still in outbox or sent": gone from both is the violation (in both is what re-queueing a sent message gives)
+		if e2 == nil && e3 == nil && !o && !s {
 			x = false
 			ev["outsent"] = fmt.Sprintf("%s out=%v sent=%v", mid, o, s)
 		}
@@ -404,7 +415,7 @@ func recoverCheck(dir string, op string, size int, old map[string][]byte) (ev re
 	ev["outXorSent"] = x
 	// "already received" only if a complete copy is in the inbox
 	ric := true
-	for _, mid := range []string{"NEWIN0000001", "OLDIN0000001"} {
+	for _, mid := range []string{"NEWIN0000001", "OLDIN0000001", longMID} {
 		a := h.GetInboundAnswer(*fbb.NewProposal(mid, "t", fbb.Wl2kProposal, []byte("x")))
 		if a == fbb.Reject {
 			m := find(in, mid)
@@ -444,7 +455,7 @@ func MainCrash(args []string) int {
 		return 2
 	}
 	defer w.Close()
-	ops := []string{"ProcessInbound", "AddOut", "SetSent", "SetSentRejected", "SetUnread", "ReceiveAgain"}
+	ops := []string{"ProcessInbound", "AddOut", "SetSent", "SetSentRejected", "SetUnread", "ReceiveAgain", "ProcessInboundLong", "ReAddSent"}
 	sizes := []int{300}
 	if *stride == 1 {
 		sizes = []int{40, 300, 3000}
@@ -464,11 +475,14 @@ func MainCrash(args []string) int {
 					"trace=open,openat,write,pwrite64,close,fsync,fdatasync,rename,renameat,renameat2,unlink,unlinkat,mkdir,mkdirat,ftruncate",
 					self, "mboxfs-c11", "--child", op, "--mbox", recDir, "--size", fmt.Sprint(size))
 				if err := cmd.Run(); err != nil {
-					fmt.Fprintf(os.Stderr, "recording %s failed: %v\n", op, err)
-					return 2
+					// exit status 3: the operation itself reported an error (e.g. a name too long) - that is an outcome
+					if ee, ok := err.(*exec.ExitError); !ok || ee.ExitCode() != 3 {
+						fmt.Fprintf(os.Stderr, "recording %s failed: %v\n", op, err)
+						return 2
+					}
 				}
 				calls, err := parseStrace(trace, recDir)
-				if err != nil || len(calls) == 0 {
+				if err != nil || (len(calls) == 0 && op != "ProcessInboundLong") {
 					fmt.Fprintf(os.Stderr, "no file system calls recorded for %s (%v)\n", op, err)
 					return 2
 				}
